@@ -34,7 +34,8 @@ CONFIGS = [f"{t}{p}" for t in ("typing.direct", "typing.root", "typing.310") for
 
 
 def plan(tier, seed):
-    shards = [{"item": {"kind": "matrix"}, "seed": seed, "n": 25 if tier == "quick" else 300}]
+    shards = [{"item": {"kind": "matrix"}, "seed": seed, "n": 25 if tier == "quick" else 300},
+              {"item": {"kind": "features"}, "seed": seed, "n": 10}]
     for i in range(8 if tier == "quick" else 120):
         shards.append({"item": {"kind": "gen", "seed": seed * 100003 + 9000 + i, "opts": {"names": "keywords", "services": True}},
                        "seed": seed * 17 + i, "n": 12 if tier == "quick" else 60})
